@@ -98,6 +98,47 @@ func runHistory(t *testing.T, sc *Scenario, raw []byte) {
 						size = []int{1500, 2048, 8192, 65536}[rng.Intn(4)]
 					}
 					seed := rng.Uint64()
+					nst := 1 + rng.Intn(3)
+					if i%3 == 2 {
+						// a bidirectional echo stream of nst distinct messages: every reply must be
+						// the caller's own message, in order, then io.EOF (C02, C05)
+						go func(c int) {
+							defer fin.Add(1)
+							md := metadata.Pairs(tokenKey, fmt.Sprintf("%d", 1000000+c))
+							ctx, cancel := context.WithCancel(metadata.NewOutgoingContext(rt.root, md))
+							defer cancel()
+							m, desc := methodOf("bidi")
+							<-gate
+							mism := func(what string, got, want []byte) {
+								x := ev("Mismatch")
+								x.C, x.K, x.Pay, x.Msg = c, what, tok(got), tok(want)
+								tr.emit(x)
+							}
+							cs, err := cc.NewStream(ctx, desc, m)
+							if err != nil {
+								mism("open", nil, nil)
+								return
+							}
+							for k := 0; k < nst; k++ {
+								req := payBytes(fmt.Sprintf("@%d:%d", size, (seed+uint64(k))%(1<<30)+1))
+								req = append([]byte(fmt.Sprintf("%08d.%d|", c, k)), req...)
+								if err := cs.SendMsg(&wrapperspb.BytesValue{Value: req}); err != nil {
+									mism("send", nil, req)
+									return
+								}
+								reply := new(wrapperspb.BytesValue)
+								if err := cs.RecvMsg(reply); err != nil || !bytes.Equal(reply.GetValue(), req) {
+									mism("recv", reply.GetValue(), req)
+									return
+								}
+							}
+							_ = cs.CloseSend()
+							if err := cs.RecvMsg(new(wrapperspb.BytesValue)); err != io.EOF {
+								mism("eof", nil, nil)
+							}
+						}(ntok)
+						continue
+					}
 					go func(c int) {
 						defer fin.Add(1)
 						req := payBytes(fmt.Sprintf("@%d:%d", size, seed%(1<<30)+1))
